@@ -177,4 +177,186 @@ theorem lzma2Loop_fuel : ∀ (fuel : Nat) (s : St), CopyInv s → s.inPos ≤ s.
           rw [e1, e4] at hle
           unfold mu; simp [setL2, hseq, e1, e4]; omega
 
+
+/-! ### `decode_buffer` -/
+
+/-- what `decodeBuffer` needs from the inner coder to make progress: the coder relation, never LZMA_PROG_ERROR, its own
+    invariant `K` (which only depends on the LZMA2 layer), and a dictionary reset request only after consuming input -/
+structure CodeOk (K : St → Prop) (code : St → Ret × St) : Prop where
+  spec : ∀ s, K s → s.inPos ≤ s.inp.size → s.dp.pos ≤ s.dp.limit →
+    Cr s (code s).2 ∧ (code s).1 ≠ .progError ∧ K (code s).2
+    ∧ ((code s).2.dp.needReset = true → s.dp.needReset = true ∨ s.inPos < (code s).2.inPos)
+  frame : ∀ s s', K s → s'.l2 = s.l2 → K s'
+
+/-- state of the LZ layer between calls -/
+structure LzOk (s : St) : Prop where
+  noReset : s.dp.needReset = false
+  size_ge : 576 ≤ s.dp.size
+  pos_le : s.dp.pos ≤ s.dp.size
+
+/-- termination measure of the `decode_buffer` loop -/
+def nu (s : St) (outSize : Nat) : Nat := (s.inp.size - s.inPos) + (outSize - s.produced)
+
+theorem decodeBuffer_fuel (K : St → Prop) (code : St → Ret × St) (hc : CodeOk K code) :
+    ∀ (fuel outSize : Nat) (s : St), LzInv s outSize → LzOk s → K s → nu s outSize < fuel →
+      (decodeBuffer code fuel outSize s).1 ≠ .progError
+      ∧ LzOk (decodeBuffer code fuel outSize s).2 ∧ K (decodeBuffer code fuel outSize s).2
+  | 0, outSize, s, _, _, _, hnu => by omega
+  | fuel + 1, outSize, s, hinv, hok, hk, hnu => by
+    unfold decodeBuffer
+    simp only []
+    generalize hs1 : ({ s with dp := (s.dp.wrap).setLimit (outSize - s.produced) } : St) = s1
+    have hb := setLimit_wrap_bounds s.dp (outSize - s.produced)
+    have e_inp : s1.inp = s.inp := by rw [← hs1]
+    have e_pos : s1.inPos = s.inPos := by rw [← hs1]
+    have e_hist : s1.hist = s.hist := by rw [← hs1]
+    have e_ob : s1.outBase = s.outBase := by rw [← hs1]
+    have e_l2 : s1.l2 = s.l2 := by rw [← hs1]
+    have e_dp : s1.dp = (s.dp.wrap).setLimit (outSize - s.produced) := by rw [← hs1]
+    -- facts about the dictionary positions after wrap + limit
+    have hsz := hok.size_ge; have hpl := hok.pos_le; have hnr := hok.noReset
+    have dfacts : s1.dp.size = s.dp.size ∧ s1.dp.needReset = false ∧ s1.dp.pos < s1.dp.size ∧ s1.dp.limit ≤ s1.dp.size := by
+      rw [e_dp]
+      unfold DictPos.setLimit DictPos.wrap
+      by_cases hw : s.dp.pos = s.dp.size
+      · simp only [hw, beq_self_eq_true, if_true, LZ_DICT_REPEAT_MAX]
+        refine ⟨trivial, hnr, by omega, ?_⟩
+        have := Nat.min_le_right (outSize - s.produced) (s.dp.size - 288); omega
+      · have : (s.dp.pos == s.dp.size) = false := by simpa using hw
+        simp only [this, Bool.false_eq_true, if_false]
+        refine ⟨trivial, hnr, by omega, ?_⟩
+        have := Nat.min_le_right (outSize - s.produced) (s.dp.size - s.dp.pos); omega
+    have hin1 : s1.inPos ≤ s1.inp.size := by rw [e_inp, e_pos]; exact hinv.inp_ok
+    have hlim1 : s1.dp.pos ≤ s1.dp.limit := by rw [e_dp]; exact hb.1
+    have hk1 : K s1 := hc.frame s s1 hk e_l2
+    have hsp := hc.spec s1 hk1 hin1 hlim1
+    generalize hr : code s1 = r at hsp
+    obtain ⟨ret, s2⟩ := r
+    obtain ⟨hcr, hret, hk2, hrs⟩ := hsp
+    have hcr' : Cr s1 s2 := hcr
+    have hret' : ret ≠ .progError := hret
+    have hk2' : K s2 := hk2
+    have hrs' : s2.dp.needReset = true → s1.dp.needReset = true ∨ s1.inPos < s2.inPos := hrs
+    have a1 := hcr'.inp; have a2 := hcr'.pos_mono; have a3 := hcr'.pos_le hin1; have a4 := hcr'.outBase
+    have a5 := hcr'.hist_eq; have a6 := hcr'.in_limit hlim1; have a7 := hcr'.limit; have a8 := hcr'.dpos_mono
+    have a9 := hcr'.size
+    have hb2 := hb.2
+    rw [← e_dp] at hb2
+    have hbase := hinv.base_ok; have hout := hinv.out_ok
+    have hprod : s.produced = s.hist.size - s.outBase := rfl
+    rw [e_hist] at a5
+    have inv2 : LzInv s2 outSize := by
+      refine ⟨a3, ?_, ?_⟩
+      · rw [a4, e_ob]; omega
+      · rw [a4, e_ob]; omega
+    have hprod2 : s2.produced = s2.hist.size - s2.outBase := rfl
+    simp only []
+    split
+    · -- a dictionary reset was requested
+      next hreset =>
+      have hlt : s.inPos < s2.inPos := by
+        rcases hrs' hreset with h | h
+        · rw [dfacts.2.1] at h; cases h
+        · rw [← e_pos]; exact h
+      have ok3 : LzOk ({ s2 with dp := s2.dp.reset } : St) := by
+        refine ⟨rfl, ?_, ?_⟩
+        · show 576 ≤ s2.dp.size; rw [a9, dfacts.1]; exact hsz
+        · show LZ_DICT_INIT_POS ≤ s2.dp.size; rw [a9, dfacts.1]; exact hsz
+      have inv3 : LzInv ({ s2 with dp := s2.dp.reset } : St) outSize := ⟨inv2.inp_ok, inv2.base_ok, inv2.out_ok⟩
+      have hk3 : K ({ s2 with dp := s2.dp.reset } : St) := hc.frame s2 _ hk2' rfl
+      split
+      · exact ⟨hret', ok3, hk3⟩
+      · refine decodeBuffer_fuel K code hc fuel outSize _ inv3 ok3 hk3 ?_
+        have hn : nu ({ s2 with dp := s2.dp.reset } : St) outSize = (s2.inp.size - s2.inPos) + (outSize - s2.produced) := rfl
+        rw [hn, hprod2, a4, e_ob, a1, e_inp]
+        unfold nu at hnu
+        rw [hprod] at hnu
+        rw [a1, e_inp] at a3
+        omega
+    · next hnoreset =>
+      have hnr2 : s2.dp.needReset = false := by
+        cases h : s2.dp.needReset
+        · rfl
+        · exact absurd h hnoreset
+      have ok2 : LzOk s2 := by
+        refine ⟨hnr2, by rw [a9, dfacts.1]; exact hsz, ?_⟩
+        have := dfacts.2.2.2; rw [a9]; omega
+      split
+      · exact ⟨hret', ok2, hk2'⟩
+      · next hcont =>
+        refine decodeBuffer_fuel K code hc fuel outSize _ inv2 ok2 hk2' ?_
+        -- the loop continues only when the dictionary is full: pos advanced, so output was produced
+        have hfull : ¬ (s2.dp.pos < s2.dp.size) := by
+          intro hlt; apply hcont; simp [hlt]
+        have hd3 := dfacts.2.2.1; have hd4 := dfacts.2.2.2
+        unfold nu at hnu ⊢
+        rw [hprod] at hnu
+        rw [hprod2, a4, e_ob, a1, e_inp]
+        rw [a1, e_inp] at a3
+        have ho := inv2.out_ok
+        rw [a4, e_ob] at ho
+        rw [e_pos] at a2
+        omega
+
+/-- extended well-formedness of a coder between calls -/
+structure Coder.Ok2 (c : Coder) : Prop where
+  ok : c.Ok
+  lz : LzOk c.s
+  copy : c.kind = .lzma2 → CopyInv c.s
+
+theorem codeOk_lzma1 : CodeOk (fun _ => True) lzmaCall where
+  spec := fun s _ _ hl => by
+    have sp := lzmaCall_spec s hl
+    refine ⟨sp.1.toCr, sp.2, trivial, fun h => ?_⟩
+    left; rw [← sp.1.needReset]; exact h
+  frame := fun _ _ _ _ => trivial
+
+theorem codeOk_lzma2 : CodeOk CopyInv lzma2Call where
+  spec := fun s hk hi hl => by
+    have hmu : mu s < 2 * (s.inp.size - s.inPos) + 4 := by
+      unfold mu; split <;> omega
+    have hf := lzma2Loop_fuel (2 * (s.inp.size - s.inPos) + 4) s hk hi hl hmu
+    exact ⟨lzma2Call_spec s hi hl, hf.ret, hf.copyInv, hf.reset⟩
+  frame := fun s s' hk hl => by
+    unfold CopyInv at *
+    rw [hl]; exact hk
+
+/-- One call of `code` on a well-formed coder never answers LZMA_PROG_ERROR (no loop runs out of fuel), and the coder
+    stays well formed. -/
+theorem Coder.code_no_prog_error (c : Coder) (outCap : Nat) (h : c.Ok2) :
+    (c.code outCap).1 ≠ .progError ∧ (c.code outCap).2.Ok2 := by
+  have hinv : LzInv c.s (c.s.produced + outCap) := ⟨h.ok.1, h.ok.2, by unfold St.produced; omega⟩
+  have hnu : nu c.s (c.s.produced + outCap) < decodeBufferFuel c.s (c.s.produced + outCap) := by
+    unfold nu decodeBufferFuel; omega
+  have hspec := Coder.code_spec c outCap h.ok
+  unfold Coder.code at hspec ⊢
+  simp only [] at hspec ⊢
+  split
+  · next hk =>
+    rw [hk] at hspec
+    simp only [] at hspec
+    have hf := decodeBuffer_fuel (fun _ => True) lzmaCall codeOk_lzma1 _ _ c.s hinv h.lz trivial hnu
+    exact ⟨hf.1, ⟨hspec.1, hf.2.1, fun hc => by cases hc⟩⟩
+  · next hk =>
+    rw [hk] at hspec
+    simp only [] at hspec
+    have hf := decodeBuffer_fuel CopyInv lzma2Call codeOk_lzma2 _ _ c.s hinv h.lz (h.copy hk) hnu
+    exact ⟨hf.1, ⟨hspec.1, hf.2.1, fun _ => hf.2.2⟩⟩
+
+
+theorem lzOk_init (dictSize presetLen : Nat) (s : St) (h : s.dp = DictPos.init dictSize presetLen) : LzOk s := by
+  refine ⟨by rw [h]; rfl, ?_, ?_⟩
+  · rw [h]; unfold DictPos.init allocSize; simp only [LZ_DICT_REPEAT_MAX]; omega
+  · rw [h]; unfold DictPos.init allocSize
+    simp only [LZ_DICT_REPEAT_MAX, LZ_DICT_INIT_POS]
+    have := Nat.min_le_right presetLen (roundDictSize dictSize)
+    omega
+
+theorem Coder.ok2_initLzma1 (props : Props) (d : Nat) (u : Option Nat) (a : Bool) (preset : List UInt8) (input : ByteArray) :
+    (Coder.initLzma1 props d u a preset input).Ok2 :=
+  ⟨Coder.ok_initLzma1 _ _ _ _ _ _, lzOk_init d preset.length _ rfl, fun h => by cases h⟩
+
+theorem Coder.ok2_initLzma2 (d : Nat) (preset : List UInt8) (input : ByteArray) : (Coder.initLzma2 d preset input).Ok2 :=
+  ⟨Coder.ok_initLzma2 _ _ _, lzOk_init d preset.length _ rfl, fun _ h => by cases h⟩
+
 end XzVerif.Lzma2
